@@ -1,4 +1,5 @@
-"""Configuration of ./check for C09 (see tools/props.py)."""
+"""Configuration of ./check C09 (shared model coq/Ts)."""
+
 ENTRY = {'coq_dir': 'C09',
  'coq_deps': ['Ts'],
  'model_files': ['Glue'],
@@ -7,24 +8,24 @@ ENTRY = {'coq_dir': 'C09',
  'harness_timeout': 3000,
  'consts': [],
  'nontrivial_min_trace': 40,
- 'rule': '`cases` real-time schedules (T = 100/300/500 ms, ops on a 200 ms grid so that every keep-alive deadline is 100 ms away from '
-         "every poll; 6-14 ops: establish, open, answer, inbound substream, drop substream, other protocols' senders, close, idle polls; "
-         'keep-alive and non-keep-alive protocol; a run whose steps drifted > 45 ms from the grid is repeated) plus 2*cases untimed '
-         'reference-counting histories, all against a real TransportService; compared per op with the extracted model: events, '
-         'Active->Inactive flips, handle active flags, tracked keys, number of armed sleeps, per channel whether a strong sender exists (= '
-         'the connection task keeps running)',
- 'trusted_base': ['tokio: sleep does not fire early, mpsc WeakSender::upgrade succeeds iff a strong sender exists, the connection task '
-                  'exits when the last strong sender is gone (tcp/connection.rs, not exercised here)',
-                  'real time: the tracker reads std::time::Instant; the behavioural tie holds on a 200 ms grid with 100 ms margins (runs '
-                  'with > 45 ms drift are repeated), not at the deadline itself',
+ 'rule': '`cases` real-time schedules (T = 100/300/500 ms, ops on a 200 ms grid so that every keep-alive deadline is 100 ms away from every poll; '
+         "6-14 ops: establish, open, answer, inbound substream, drop substream, other protocols' senders, close, idle polls; keep-alive and "
+         'non-keep-alive protocol; a run whose steps drifted > 45 ms from the grid is repeated) plus 2*cases untimed reference-counting histories, '
+         'all against a real TransportService; compared per op with the extracted model: events, Active->Inactive flips, handle active flags, '
+         'tracked keys, number of armed sleeps, per channel whether a strong sender exists (= the connection task keeps running)',
+ 'trusted_base': ['tokio: sleep does not fire early, mpsc WeakSender::upgrade succeeds iff a strong sender exists, the connection task exits when '
+                  'the last strong sender is gone (tcp/connection.rs, not exercised here)',
+                  'real time: the tracker reads std::time::Instant; the behavioural tie holds on a 200 ms grid with 100 ms margins (runs with > 45 '
+                  'ms drift are repeated), not at the deadline itself',
                   'atomic-handler abstraction: the service is polled to quiescence after every input; a sleep is armed when first polled'],
- 'level_text': 'Proof (logical time, every timeout T, every history): the recorded last-activity time of a tracked connection equals the '
-               'time of its last keep-alive activity per an independent specification, an armed sleep due <= last + T always exists; a '
-               'handle is downgraded only when that activity is >= T old (not before); a poll at or after last + T untracks the key and '
-               'leaves the handle Inactive (closes); substreams of a non-keep-alive protocol move no time and re-activate nothing; a '
-               "permit in flight or a live keep-alive substream keeps the channel's strong count positive, and with none of them and no "
+ 'level_text': 'Proof (logical time, every timeout T, every history): the recorded last-activity time of a tracked connection equals the time of its '
+               'last keep-alive activity per an independent specification, an armed sleep due <= last + T always exists and (feasible histories) '
+               'there is exactly one per tracked connection and never more than one per key; a handle is downgraded only when that activity is >= T '
+               'old, and at exactly last + T when the step does not jump over a due time; after every poll nothing tracked is overdue and (feasible '
+               'histories) every Active handle has an activity less than T ago; substreams of a non-keep-alive protocol move no time and re-activate '
+               "nothing; a permit in flight or a live keep-alive substream keeps the channel's strong count positive, and with none of them and no "
                'other protocol it is zero. Tied to the code by a real-time differential run.',
- 'level_note': 'Partial for real time: timer accuracy, executor latency and tokio channel semantics are assumptions; the end-to-end close '
-               "of the TCP connection task (handle_protocol_command(None)) is not exercised; 'at most one armed sleep per tracked "
-               "connection' is checked on traces only as tracked <= armed (not a theorem).",
+ 'level_note': 'Partial for real time: timer accuracy, executor latency and tokio channel semantics are assumptions; the end-to-end close of the TCP '
+               'connection task (handle_protocol_command(None)) is not exercised. The single-sleep theorem needs the per-connection FIFO assumption '
+               '(a counterexample without it is proved).',
  'assumptions': ["armed sleeps are polled (the protocol's event loop polls the service when woken)", 'time is monotone']}
